@@ -684,7 +684,7 @@ class Columns(Widget, WidgetContainerMixin, WidgetContainerListContentsMixin):
         position -- index of child widget to be made focus
         """
         try:
-            if position < 0 or position >= len(self.contents):
+            if not isinstance(position, int) or position < 0 or position >= len(self.contents):
                 raise IndexError(f"No Columns child widget at position {position}")
         except TypeError as exc:
             raise IndexError(f"No Columns child widget at position {position}").with_traceback(
